@@ -34,7 +34,7 @@ POOL = [
     ("mixed", '[1, "a", null]'), ("dict", '{1: 2, "a": [3]}'), ("set", "{1, 2}"), ("vector", "V(1, 2)"), ("bytes", "B[104, 255]"),
     ("stream", "(1 to 3)"), ("builtin", "(+)"), ("closure", "(\\x -> [x])"), ("closure2", "(\\x, y -> [x, y])"), ("type", "int"),
 ]
-QUICK = ["null", "int0", "int2", "rational", "float", "str", "ch", "ch2", "list", "dict", "stream", "closure", "closure2"]
+QUICK = ["null", "int0", "int2", "rational", "float", "str", "ch", "ch2", "ustr", "list", "dict", "stream", "closure", "closure2"]
 SUB3 = ["int0", "int2", "str", "ch", "list", "closure2", "null", "stream", "float"]
 SUB3_QUICK = ["int2", "str", "list", "closure2"]
 
@@ -81,15 +81,18 @@ def bounds(tier):
 def cases(tier, shard, nshards):
     pool = [n for n, _ in POOL] if tier != "quick" else QUICK
     sub3 = SUB3 if tier != "quick" else SUB3_QUICK
-    opts = {"step_ms": 400, "fuel": 20000, "compact": True, "cap": 12}
+    opts = {"step_ms": 400, "fuel": 20000, "compact": True, "cap": 12, "hang_retry": False}   # a hang only drops the tuple from the comparison
     cnt = 0
     for f in fns():
-        for a in pool:
+        for a in [n for n, _ in POOL]:
             cnt += 1
             if cnt % nshards != shard:
                 continue
             A = "p_" + a
+            # one-argument forms over the whole pool in both tiers (they are cheap); pairs and triples over the tier's pool
             yield Case([t.format(F=f, A=A) for _, t in UN_FORMS], {"ar": 1, "fn": f, "args": [a]}, pre=PRE, opts=opts)
+            if a not in pool:
+                continue
             for b in pool:
                 B = "p_" + b
                 yield Case([t.format(F=f, A=A, B=B) for _, t in BIN_FORMS], {"ar": 2, "fn": f, "args": [a, b]}, pre=PRE, opts=opts)
